@@ -157,9 +157,15 @@ func upperBound(v ssa.Value, at *ssa.BasicBlock, depth int) uint64 {
 }
 
 // ruleNarrowGuard: arithmetic in uint8/uint16 whose result is compared must be proven not to wrap.
+// narrowReviewed: narrow sums that cannot wrap for a reason the interval analysis does not see (one function each).
+var narrowReviewed = map[string]string{
+	"(*pkg/packet/bgp.CapSoftwareVersion).DecodeFromBytes":      "1+c.SoftwareVersionLen: the field was assigned two lines above from a local already tested to be at most 64",
+	"(*pkg/packet/bgp.PathAttributeTunnelEncap).DecodeFromBytes": "4+tlv.Length: TunnelEncapTLV.DecodeFromBytes has just refused a TLV longer than the remaining value, and an attribute value is at most 65535 octets, so Length <= 65531",
+}
+
 func (c *Ctx) ruleNarrowGuard(rule string, pkgs []string, min int) {
 	r := c.R
-	r.Rule(rule, "wrap-around in length guards: every +, * or << computed in uint8/uint16 on the decode side whose result is compared (a length or bounds guard) has operands whose upper bounds — from constants, widening conversions, phis and dominating comparisons with constants — keep the exact result within the type; otherwise a peer-chosen length makes the guard pass on a wrapped value and the following slice expression panics", min)
+	r.Rule(rule, "wrap-around in length guards: every +, * or << computed in uint8/uint16 on the decode side whose result is compared (a length or bounds guard), widened to a larger integer type, or used as a slice bound, index or allocation size has operands whose upper bounds — from constants, widening conversions, phis and dominating comparisons with constants — keep the exact result within the type; otherwise a peer-chosen length makes the guard pass on a wrapped value and the following slice expression panics", min)
 	for _, short := range pkgs {
 		for _, fn := range c.P.FuncsIn(short) {
 			n := 0
@@ -208,6 +214,19 @@ func (c *Ctx) ruleNarrowGuard(rule string, pkgs []string, min int) {
 							}
 						}
 					}
+					// or widened afterwards / used as a length or offset: int(n * size), data[:n+2]
+					for _, ref := range *bo.Referrers() {
+						switch x := ref.(type) {
+						case *ssa.Convert:
+							if w, ok := x.Type().Underlying().(*types.Basic); ok && w.Info()&types.IsInteger != 0 {
+								if wm, okm := uintMax(x.Type()); !okm || wm > func() uint64 { m, _ := uintMax(bo.Type()); return m }() {
+									cmp = true
+								}
+							}
+						case *ssa.Slice, *ssa.IndexAddr, *ssa.MakeSlice:
+							cmp = true
+						}
+					}
 					if !cmp {
 						continue
 					}
@@ -226,10 +245,12 @@ func (c *Ctx) ruleNarrowGuard(rule string, pkgs []string, min int) {
 					ub := upperBound(bo, b, 0)
 					fk := ir.OuterKey(fn)
 					cons := fmt.Sprintf("%s in %s #%d", bo.Op, bt.Name(), n)
-					if ub <= tmax {
+					if why, ok := narrowReviewed[fk]; ok && ub > tmax {
+						r.Except(rule, fk, cons, c.P.InstrPos(bo), why)
+					} else if ub <= tmax {
 						r.Ok(rule, fk, cons, c.P.InstrPos(bo), fmt.Sprintf("result ≤ %d", ub))
 					} else {
-						r.Bad(rule, fk, cons, c.P.InstrPos(bo), fmt.Sprintf("the exact result can reach %d but is computed in %s (max %d): the comparison using it can pass on a wrapped value", ub, bt.Name(), tmax))
+						r.Bad(rule, fk, cons, c.P.InstrPos(bo), fmt.Sprintf("the exact result can reach %d but is computed in %s (max %d): the comparison, length or offset using it is computed from a wrapped value", ub, bt.Name(), tmax))
 					}
 				}
 			}
